@@ -80,7 +80,10 @@ func c04Events(p c04Params) []string {
 		// clients that go away before their request is sent on, or while it is in flight at the
 		// backend: the client gets nothing (the proxy writes a 502 nobody reads), but that is no
 		// failed response of the backend - separate, smaller searches
-		return []string{"req:10.0.0.1", "req:10.0.0.2", "req-gone:10.0.0.1", "req-gone-midway:10.0.0.2", "flip-500:b0", "flip-500:b1", "clock+4s(<window)", "clock+11s(>window)"}
+		// likewise a client whose upload breaks off (malformed chunk) and one that does not take
+		// the response body (broken pipe): the exchange fails, the backend has not
+		return []string{"req:10.0.0.1", "req:10.0.0.2", "req-gone:10.0.0.1", "req-gone-midway:10.0.0.2", "flip-500:b0", "flip-500:b1", "clock+4s(<window)", "clock+11s(>window)",
+			"req-gone-bad-upload:10.0.0.1", "req-gone-refuses-body:10.0.0.2"}
 	}
 	if p.Active {
 		ev = append(ev, "tick")
@@ -216,6 +219,10 @@ func (in *c04Inst) Step(ev int) *vh.HViol {
 		var res reqResult
 		if strings.HasPrefix(e, "req-gone-midway:") {
 			res = in.k.requestGoneMidway(e[len("req-gone-midway:"):])
+		} else if strings.HasPrefix(e, "req-gone-bad-upload:") {
+			res = in.k.requestBadUpload(e[len("req-gone-bad-upload:"):])
+		} else if strings.HasPrefix(e, "req-gone-refuses-body:") {
+			res = in.k.requestClientRefuses(e[len("req-gone-refuses-body:"):])
 		} else {
 			res = in.k.requestCancelled(e[len("req-gone:"):])
 		}
